@@ -73,22 +73,48 @@ static void hook(int kind, unsigned long ticket)
 	g_sched->park(c->id, kind, spinning);
 }
 
+// H3: after every completed push to / pop from a single-writer single-reader buffer (data segments, the segment pool's cache and
+// in-use lists).  Used when a queue is built from tiny segments, so that segment switching and recycling happen all the time.
+static bool g_swsr_points = false;
+static void swsr_hook(int kind, const void *)
+{
+	ThreadCtx *c = tctx;
+	if (!c || !g_swsr_points) return;
+	if (g_mode == 0) {
+		if (c->delay_pct && (int)c->rng.below(100) < c->delay_pct) {
+			const unsigned k = (unsigned)c->rng.below(4);
+			if (k == 0) sched_yield();
+			else for (volatile unsigned i = 0, n = (unsigned)c->rng.below(k == 1 ? 50 : k == 2 ? 500 : 5000); i < n; ++i) ;
+		}
+		return;
+	}
+	c->log.push_back({kind, 0, g_clock.fetch_add(1), 0});
+	c->last_point = kind;
+	g_sched->park(c->id, kind, false);
+}
+
 // ---------------------------------------------------------------------------------------- operations
-struct Plan { int producers, consumers, pushes, pops; };
+struct Plan { int producers, consumers, pushes, pops; int nq = 0, size = 0; };	// nq/size: segment geometry (0 = the queue's defaults)
 
 template<typename Q> struct Ops;
 template<> struct Ops<ff::uMPMC_Ptr_Queue> {
+	static const bool has_geometry = true;
 	static void init(ff::uMPMC_Ptr_Queue& q) { q.init(); }
+	static void init_geometry(ff::uMPMC_Ptr_Queue& q, int nq, int size) { q.init((unsigned long)nq, (size_t)size); }
 	static void push(ff::uMPMC_Ptr_Queue& q, uint64_t *slot) { q.push(slot); }
 	static bool pop(ff::uMPMC_Ptr_Queue& q, uint64_t& id) { void *p = nullptr; if (!q.pop(&p)) return false; id = *(uint64_t *)p; return true; }
 };
 template<> struct Ops<ff_unbounded_queue<uint64_t *>> {
+	static const bool has_geometry = false;
 	static void init(ff_unbounded_queue<uint64_t *>&) {}
+	static void init_geometry(ff_unbounded_queue<uint64_t *>&, int, int) {}
 	static void push(ff_unbounded_queue<uint64_t *>& q, uint64_t *slot) { q.try_push(slot); }
 	static bool pop(ff_unbounded_queue<uint64_t *>& q, uint64_t& id) { uint64_t *p = nullptr; if (!q.try_pop(p)) return false; id = *p; return true; }
 };
 template<> struct Ops<ff_unbounded_queue<uint64_t>> {
+	static const bool has_geometry = false;
 	static void init(ff_unbounded_queue<uint64_t>&) {}
+	static void init_geometry(ff_unbounded_queue<uint64_t>&, int, int) {}
 	static void push(ff_unbounded_queue<uint64_t>& q, uint64_t *slot) { q.try_push(*slot); }
 	static bool pop(ff_unbounded_queue<uint64_t>& q, uint64_t& id) { uint64_t *p = nullptr; if (!q.try_pop(p)) return false; id = *p; q.release(p); return true; }
 };
@@ -197,7 +223,11 @@ static void stress_case(long long n, uint64_t seed, const char *qname)
 	const long total = (long)(r.chance(20) ? r.range(20000, 120000) : r.range(200, 20000));
 	const long per = std::max<long>(1, total / producers);
 	const int delay = r.chance(60) ? (int)r.range(1, 30) : 0;
-	Q q; Ops<Q>::init(q);
+	// half of the runs on the bare queue use tiny segments: a sub-queue then switches and recycles segments constantly
+	const bool tiny = Ops<Q>::has_geometry && r.chance(50);
+	const int gq = tiny ? (int)r.range(1, 4) : 0, gs = tiny ? (int)r.range(2, 16) : 0;
+	g_swsr_points = tiny;
+	Q q; if (tiny) Ops<Q>::init_geometry(q, gq, gs); else Ops<Q>::init(q);
 	std::vector<uint64_t> ids((size_t)per * producers);
 	for (size_t i = 0; i < ids.size(); ++i) ids[i] = i + 1;
 	std::vector<ThreadCtx> ctx(producers + consumers + 1);
@@ -225,7 +255,9 @@ static void stress_case(long long n, uint64_t seed, const char *qname)
 	tctx = nullptr;
 	std::vector<ThreadCtx *> all; for (auto& c : ctx) all.push_back(&c);
 	std::string detail, key;
-	char w[160]; snprintf(w, sizeof w, "%s stress producers=%d consumers=%d elements=%ld delay=%d%%", qname, producers, consumers, per * producers, delay);
+	g_swsr_points = false;
+	char w[200]; snprintf(w, sizeof w, "%s stress producers=%d consumers=%d elements=%ld delay=%d%% segments=%s", qname, producers, consumers, per * producers, delay, tiny ? (std::to_string(gq) + "x" + std::to_string(gs)).c_str() : "default");
+	if (tiny) R.stat("stress_runs_tiny_segments");
 	if (!judge(all, (size_t)per * producers, w, detail, key)) R.viol(key + "|stress", detail);
 	long long evs = 0; for (auto& c : ctx) evs += (long long)c.log.size();
 	R.stat("stress_runs"); R.stat("stress_elements", per * producers); R.stat("hook_events", evs);
@@ -241,7 +273,8 @@ static bool run_scheduled(const Plan& pl, const std::vector<int>& forced, vh::Rn
 	std::string& key, std::string& detail, int max_steps, bool& pruned)
 {
 	const int nth = pl.producers + pl.consumers;
-	ff::uMPMC_Ptr_Queue q; q.init();
+	ff::uMPMC_Ptr_Queue q; if (pl.nq) q.init((unsigned long)pl.nq, (size_t)pl.size); else q.init();
+	g_swsr_points = pl.nq != 0;
 	std::vector<uint64_t> ids((size_t)pl.producers * pl.pushes);
 	for (size_t i = 0; i < ids.size(); ++i) ids[i] = i + 1;
 	std::vector<ThreadCtx> ctx(nth + 1);
@@ -310,7 +343,8 @@ static bool run_scheduled(const Plan& pl, const std::vector<int>& forced, vh::Rn
 	g_mode = 1;
 	g_sched = nullptr;
 	std::vector<ThreadCtx *> all; for (auto& c : ctx) all.push_back(&c);
-	char w[160]; snprintf(w, sizeof w, "scheduled producers=%d x %d pushes, consumers=%d x %d pops, %zu steps", pl.producers, pl.pushes, pl.consumers, pl.pops, trace.size());
+	g_swsr_points = false;
+	char w[200]; snprintf(w, sizeof w, "scheduled producers=%d x %d pushes, consumers=%d x %d pops, segments=%s, %zu steps", pl.producers, pl.pushes, pl.consumers, pl.pops, pl.nq ? (std::to_string(pl.nq) + "x" + std::to_string(pl.size)).c_str() : "default", trace.size());
 	if (stuck) { key = "oracle:all-threads-spinning"; detail = w; return false; }
 	return judge(all, ids.size(), w, detail, key);
 }
@@ -326,11 +360,19 @@ static void random_case(long long n, uint64_t seed, int schedules)
 {
 	vh::Rng r(seed * 7907 + n);
 	Plan pl{(int)r.range(2, 3), (int)r.range(1, 2), (int)r.range(1, 3), 0};
+	int max_steps = 400;
+	if (r.chance(35)) {
+		// tiny segments: with 1-2 sub-queues of 2-3 slots a handful of pushes makes the producers switch segments and the consumers
+		// recycle them; the steps of that (H3) are scheduling points too
+		pl.pushes = (int)r.range(3, 7); pl.nq = (int)r.range(1, 2); pl.size = (int)r.range(2, 3); max_steps = 3000;
+		R.stat("random_cases_tiny_segments");
+	}
 	pl.pops = (int)r.range(1, pl.producers * pl.pushes + 1);
+	if (pl.nq) pl.pops = std::max(pl.pops, pl.producers * pl.pushes / pl.consumers);	// the consumers must get through segments
 	for (int s = 0; s < schedules; ++s) {
 		vh::Rng rr(seed * 1000003 + n * 4099 + s);
 		std::vector<Choice> tr; uint64_t h; std::string key, detail; bool pruned;
-		const bool ok = run_scheduled(pl, {}, &rr, tr, h, key, detail, 400, pruned);
+		const bool ok = run_scheduled(pl, {}, &rr, tr, h, key, detail, max_steps, pruned);
 		R.stat("schedules_random"); R.stat("schedule_steps", (long long)tr.size());
 		if (pruned) R.stat("schedules_pruned");
 		R.distinct("schedule", h);
@@ -391,6 +433,7 @@ int main(int argc, char **argv)
 	const long long start = a.num("start", 0), cases = a.num("cases", 1);
 	const std::string mode = a.str("mode", "stress");
 	ff::verif_mpmc_hook() = hook;
+	ff::verif_swsr_hook() = swsr_hook;
 	R.case_seconds = (unsigned)a.num("case-seconds", 300);
 	for (long long n = start; n < start + cases; ++n) {
 		R.case_mark(n);
